@@ -28,6 +28,9 @@ const (
 type scalarOperator struct {
 	seriesOnce sync.Once
 	series     []labels.Labels
+	// dedup merges series which get the same label set because
+	// the operation drops the metric name.
+	dedup *model.SeriesDeduplicator
 
 	pool          *model.VectorPool
 	scalar        model.VectorOperator
@@ -139,6 +142,9 @@ func (o *scalarOperator) Next(ctx context.Context) ([]model.StepVector, error) {
 			step.Samples = append(step.Samples, val)
 			step.SampleIDs = append(step.SampleIDs, vector.SampleIDs[i])
 		}
+		if err := o.dedup.Apply(step.SampleIDs); err != nil {
+			return nil, err
+		}
 		out = append(out, step)
 		o.next.GetPool().PutStepVector(vector)
 	}
@@ -173,7 +179,7 @@ func (o *scalarOperator) loadSeries(ctx context.Context) error {
 		}
 	}
 
-	o.series = series
+	o.dedup, o.series = model.NewSeriesDeduplicator(series, false)
 	return nil
 }
 
